@@ -7,6 +7,9 @@
          | CRASH <code> ok=<0|1> work=<w>
          | FUEL
      GMP <hex>                 -> GMP f=<0|1> q=<0|1> num=<n> den=<d> d=<sscanf %d|-> ld=<sscanf %ld|-> atoi=<n> mul=<(long)(atoi*LOG2_10)>
+                                  pl=<v|-> pd=<v|-> pp=<v|-> pq=<v|-> mulq=<(long)(pq*LOG2_10)|-> pn=<v|->
+                                  (mps_utils_parse_long with the five ranges the parsers use, see harness/c09_parse.c)
+     GMPOLD <hex>              -> the first line of fields only (a source tree without mps_utils_parse_long)
    GMP's mpf_set_str / mpq_set_str are the transcriptions gmpf621 / gmpq621.
    <hex> is the byte string, "." for the empty string.  Only I/O here (hex, decimal). *)
 module ZA = Z
@@ -50,12 +53,25 @@ let handle (line : string) : string =
        | SErr (EIndet f, st) -> Printf.sprintf "ERRI %s %s" (escaped f) (tail st)
        | SCrash (w, st) -> Printf.sprintf "CRASH %s %s" (zs w) (tail st)
        | SFuel -> "FUEL")
-  | ["GMP"; h] ->
+  | [("GMP" | "GMPOLD") as cmd; h] ->
       let b = bytes_of_hex h in
       let o = function None -> "-" | Some v -> zs v in
       let (q, n, d) = match gmpq621 b with None -> (0, "-", "-") | Some (n, d) -> (1, zs n, zs d) in
-      Printf.sprintf "GMP f=%d q=%d num=%s den=%s d=%s ld=%s atoi=%s mul=%s" (if gmpf621 b then 1 else 0) q n d
-        (o (sscanf_d b)) (o (sscanf_ld b)) (zs (atoi b)) (zs (mul_log2_10 (atoi b)))
+      let first = Printf.sprintf "GMP f=%d q=%d num=%s den=%s d=%s ld=%s atoi=%s mul=%s" (if gmpf621 b then 1 else 0) q n d
+        (o (sscanf_d b)) (o (sscanf_ld b)) (zs (atoi b)) (zs (mul_log2_10 (atoi b))) in
+      if cmd = "GMPOLD" then first else begin
+        let zi (s : string) : z = let t = ZA.of_string s in
+          let rec pos (x : ZA.t) : positive =
+            if ZA.equal x ZA.one then XH
+            else if ZA.is_odd x then XI (pos (ZA.shift_right x 1)) else XO (pos (ZA.shift_right x 1)) in
+          if ZA.sign t = 0 then Z0 else if ZA.sign t > 0 then Zpos (pos t) else Zneg (pos (ZA.neg t)) in
+        let lmin = zi "-9223372036854775808" and lmax = zi "9223372036854775807" in
+        let imax = zi "2147483647" and imax1 = zi "2147483646" and lmax4 = zi "2305843009213693951" in
+        let pq = parse_long b lmin lmax4 in
+        Printf.sprintf "%s pl=%s pd=%s pp=%s pq=%s mulq=%s pn=%s" first
+          (o (parse_long b lmin lmax)) (o (parse_long b (zi "1") imax1)) (o (parse_long b (zi "1") imax))
+          (o pq) (match pq with None -> "-" | Some v -> zs (mul_log2_10 v)) (o (parse_long b Z0 imax1))
+      end
   | _ -> "BADCMD"
 
 let () =
